@@ -658,6 +658,13 @@ theorem nv_C19_eq_iff :
     (nvRD.eqOp nvRD' = true ↔ (nvRD.rows = nvRD'.rows ∧ nvRD.cols = nvRD'.cols ∧ nvRD.cells = nvRD'.cells)) ∧
     nvRD.neOp nvRD' = !nvRD.eqOp nvRD' :=
   ⟨nv_wf.2.2.2.1, nv_wf.2.2.2.2.1, C19_eq_iff nvRD nvRD' nv_wf.2.2.2.1 nv_wf.2.2.2.2.1⟩
+/-- `C19_eq_equivalence` on three well-formed rasters with both premises of transitivity true. -/
+theorem nv_C19_eq_equivalence :
+    nvRI32.eqOp ⟨3, 2, [1, 2, 3, 4, 5, 6]⟩ = true ∧ (⟨3, 2, [1, 2, 3, 4, 5, 6]⟩ : Raster Int).eqOp nvRI32 = true ∧
+    nvRI32.eqOp nvRI32 = true := by
+  have h := C19_eq_equivalence nvRI32 ⟨3, 2, [1, 2, 3, 4, 5, 6]⟩ nvRI32 (by decide) (by decide) (by decide)
+  have e : nvRI32.eqOp ⟨3, 2, [1, 2, 3, 4, 5, 6]⟩ = true := by decide
+  exact ⟨e, h.2.1 e, h.2.2 e (h.2.1 e)⟩
 /-- ... and the `true` side: a raster and an equal copy. -/
 example : nvRI32.eqOp ⟨3, 2, [1, 2, 3, 4, 5, 6]⟩ = true :=
   (C19_eq_iff nvRI32 ⟨3, 2, [1, 2, 3, 4, 5, 6]⟩ (by decide) (by decide)).1.mpr ⟨rfl, rfl, rfl⟩
